@@ -169,6 +169,7 @@ def run(ctx):
         st[k] = st.get(k, 0) + by
 
     per_profile = {}
+    sizes = []
     distinct = set()
     nontrivial = 0
     nf_printed = []   # (index, S-expression) of model-printed normal forms, to be evaluated by cue
@@ -189,6 +190,7 @@ def run(ctx):
             bump("impl-layer-model-" + ("predicts-reevaluated-text" if m_impl == got else "differs-from-reevaluated-text") + ("-in-known-class" if "suspect" in flags else ""))
         pp = per_profile.setdefault(prof, {"cases": 0, "ok": 0, "known": 0})
         pp["cases"] += 1
+        sizes.append(want.count("{"))
         if c not in distinct:
             distinct.add(c)
             # non-trivial: a closed scope, a pattern or an optional/required field is involved and the value has a nested struct
@@ -354,6 +356,9 @@ def run(ctx):
         "rule": "generated CoreCUE programs (1-3 root conjuncts: schema literals with regular/optional/required fields, patterns, '...', definitions, close(), literals embedding a definition/close, data structs; scalars incl. bounds with negative operands; labels that need quoting) that evaluate without error, each printed under the profiles default, Final, Concrete, All, Raw (programs without definitions only), Definitions+Hidden+Optional; non-trivial = distinct (program, profile) with a closed scope, pattern or optional/required field and a nested struct in the value. bounds: distinct random conjunctions of int/string and integer bounds (1-6 values, operands incl. 0, negatives and the limits of the sized integer types)",
         "samples": samples,
         "generator": gen_stats, "per_profile": per_profile, "outcomes": st,
+        "input_distribution": {"struct_nodes_avg": round(sum(sizes) / max(1, len(sizes)), 2), "struct_nodes_max": max(sizes or [0]),
+                               "values_with_closed_node_and_further_conjunct": gen_stats.get("programs-suspect", 0),
+                               "erroneous_programs_skipped": gen_stats.get("programs-erroneous", 0)},
         "bounds": {"cases": len(bc), "distinct": len(bdist), "rewritten_to_predeclared": brew},
         "repository_corpus": corpus,
         "violations_total": nviol[0], "harness_build_s": hsecs,
